@@ -1,6 +1,6 @@
 (** Lemmas for C11: schedule independence, merge order, pool bound, registry order, path order. *)
 From CM Require Import Base.Dict Proofs.DictFacts Model.Sched Spec.SchedSpec.
-From Coq Require Import Permutation Sorted Arith.
+From Coq Require Import Permutation Sorted Arith FinFun.
 
 (* ------------------------------------------------------------------------------------------------ *)
 (** * List update *)
@@ -76,7 +76,7 @@ Section Exec.
 
   Let c0 (p : path) := lookup fs0 p.
   Let o0 (p : path) := T p (fnd p) (c0 p).
-  Let stp := step files T fnd.
+  Let stp := step TaskLocal files T fnd.
 
   Definition phase_ok (i : nat) (p : path) (rem : list ev) (st : state) : Prop :=
     (rem = [Read i; Compute i; Write i] /\ lookup (st_fs st) p = c0 p) \/
@@ -133,17 +133,17 @@ Section Exec.
     { unfold phase_ok in Hcur.
       destruct Hcur as [[E Hf] | [[E (Hf & Hr)] | [[E (Hf & Ho)] | [E _]]]]; try discriminate.
       - (* Read *)
-        injection E as -> ->. unfold stp, step. rewrite Hp.
+        injection E as -> ->. unfold stp, step, rd_slot. rewrite Hp.
         split; [|split; [|split]]; simpl; auto.
         + right. left. simpl. repeat split; auto. rewrite Hf. apply dget_dset_same. apply Nat.eqb_spec.
         + intros j Hj. apply dget_dset_other; auto. apply Nat.eqb_spec.
       - (* Compute *)
-        injection E as -> ->. unfold stp, step. rewrite Hp, Hr.
+        injection E as -> ->. unfold stp, step, rd_slot. rewrite Hp, Hr.
         split; [|split; [|split]]; simpl; auto.
         + right. right. left. simpl. repeat split; auto. apply dget_dset_same. apply Nat.eqb_spec.
         + intros j Hj. apply dget_dset_other; auto. apply Nat.eqb_spec.
       - (* Write *)
-        injection E as -> ->. unfold stp, step. rewrite Hp, Ho.
+        injection E as -> ->. unfold stp, step, rd_slot. rewrite Hp, Ho.
         assert (Hfc : final_content T fnd fs0 p = match fst (o0 p) with Some c => Some c | None => c0 p end) by reflexivity.
         destruct (o0 p) as [[c'|] r] eqn:Eo.
         + split; [|split; [|split]]; simpl; auto.
@@ -184,7 +184,7 @@ Section Exec.
     - reflexivity.
   Qed.
 
-  Lemma exec_final tr : interleaving (tasks (length files)) tr -> Final (exec files T fnd fs0 tr).
+  Lemma exec_final tr : interleaving (tasks (length files)) tr -> Final (exec TaskLocal files T fnd fs0 tr).
   Proof. intros H. unfold exec. eapply Inv_run; eauto. apply Inv_init. Qed.
 
   Lemma Final_fs st : Final st -> forall p, lookup (st_fs st) p = spec_fs files T fnd fs0 p.
@@ -210,8 +210,8 @@ Qed.
 (** Every interleaving ends in the state the specification describes. *)
 Lemma exec_spec T fnd files fs0 tr :
   List.NoDup files -> interleaving (tasks (length files)) tr ->
-  (forall p, lookup (st_fs (exec files T fnd fs0 tr)) p = spec_fs files T fnd fs0 p) /\
-  merged MapInputOrder (length files) tr (exec files T fnd fs0 tr) = spec_merged files T fnd fs0.
+  (forall p, lookup (st_fs (exec TaskLocal files T fnd fs0 tr)) p = spec_fs files T fnd fs0 p) /\
+  merged MapInputOrder (length files) tr (exec TaskLocal files T fnd fs0 tr) = spec_merged files T fnd fs0.
 Proof.
   intros Hnd Hil. pose proof (exec_final T fnd files fs0 Hnd tr Hil) as HF. split.
   - now apply Final_fs.
@@ -224,8 +224,8 @@ Proof. apply interleaving_concat. Qed.
 
 Lemma schedule_free T fnd files fs0 tr :
   List.NoDup files -> interleaving (tasks (length files)) tr ->
-  let st := exec files T fnd fs0 tr in
-  let sq := exec files T fnd fs0 (sequential (length files)) in
+  let st := exec TaskLocal files T fnd fs0 tr in
+  let sq := exec TaskLocal files T fnd fs0 (sequential (length files)) in
   (forall p, lookup (st_fs st) p = lookup (st_fs sq) p) /\
   merged MapInputOrder (length files) tr st = merged MapInputOrder (length files) (sequential (length files)) sq /\
   (forall p, ~ In p files -> lookup (st_fs st) p = lookup fs0 p).
@@ -250,8 +250,8 @@ Qed.
 Lemma sibling_free T D files fs0 f i tr tr1 :
   List.NoDup files -> nth_error files i = Some f -> sibling_independent D ->
   interleaving (tasks (length files)) tr -> interleaving (tasks 1) tr1 ->
-  let st := run_codemod files T D fs0 tr in
-  let st1 := run_codemod [f] T D (only_file fs0 f) tr1 in
+  let st := run_codemod TaskLocal files T D fs0 tr in
+  let st1 := run_codemod TaskLocal [f] T D (only_file fs0 f) tr1 in
   lookup (st_fs st) f = lookup (st_fs st1) f /\ res_of st i = res_of st1 0.
 Proof.
   intros Hnd Hi HD Hil Hil1 st st1.
@@ -269,64 +269,174 @@ Qed.
 
 (* ------------------------------------------------------------------------------------------------ *)
 (** * The pool *)
-Lemma starts_app a b : starts (a ++ b) = starts a + starts b.
-Proof. unfold starts. now rewrite filter_app, app_length. Qed.
-Lemma finishes_app a b : finishes (a ++ b) = finishes a + finishes b.
-Proof. unfold finishes. now rewrite filter_app, app_length. Qed.
+Lemma busy_le_len ws : busy_of ws <= length ws.
+Proof. induction ws as [|[j|] r IH]; simpl; lia. Qed.
 
-Lemma length_remove_nat i l : mem_nat i l = true -> S (length (remove_nat i l)) = length l.
+Lemma busy_upd_take : forall ws k i, nth_error ws k = Some None -> busy_of (upd ws k (Some i)) = S (busy_of ws).
 Proof.
-  induction l as [|j r IH]; simpl; [discriminate|].
-  destruct (Nat.eqb i j); simpl; auto.
+  induction ws as [|[j|] r IH]; intros [|k] i H; simpl in *; try discriminate; auto;
+    try (now rewrite (IH k i H)).
 Qed.
 
-(** In an admissible trace, after every prefix, the number of running tasks is starts - finishes and is <= b. *)
-Lemma admissible_inflight b : forall pre post running started,
-  admissible b running started (pre ++ post) = true ->
-  (N.of_nat (length running) <= b)%N ->
-  exists k, k + finishes pre = length running + starts pre /\ (N.of_nat k <= b)%N.
+Lemma busy_upd_done : forall ws k j, nth_error ws k = Some (Some j) -> S (busy_of (upd ws k None)) = busy_of ws.
 Proof.
-  induction pre as [|e pre IH]; intros post running started H Hb; simpl in *.
-  - exists (length running). split; [unfold starts, finishes; simpl; lia | exact Hb].
-  - destruct e as [i|i].
-    + apply andb_true_iff in H. destruct H as [H H3]. apply andb_true_iff in H. destruct H as [H1 H2].
-      apply N.ltb_lt in H1.
-      destruct (IH post (i :: running) (i :: started) H3) as [k [Hk Hkb]]; [simpl; lia|].
-      exists k. split; auto. unfold starts, finishes in *. simpl in *. lia.
-    + apply andb_true_iff in H. destruct H as [H1 H2].
-      pose proof (length_remove_nat i running H1) as Hl.
-      destruct (IH post (remove_nat i running) started H2) as [k [Hk Hkb]]; [lia|].
-      exists k. split; auto. unfold starts, finishes in *. simpl in *. lia.
+  induction ws as [|[j'|] r IH]; intros [|k] j H; simpl in *; try discriminate; auto;
+    try (now rewrite (IH k j H)).
 Qed.
 
-Lemma inflight_le b pre post :
-  admissible b [] [] (pre ++ post) = true -> (N.of_nat (inflight pre) <= b)%N.
+(** one step keeps the number of threads within the bound (only Spawn adds one, and only below the bound) *)
+Lemma pool_step_threads b p e p' :
+  pool_step b p e = Some p' -> (N.of_nat (length (p_workers p)) <= b)%N -> (N.of_nat (length (p_workers p')) <= b)%N.
 Proof.
-  intros H. destruct (admissible_inflight b pre post [] [] H) as [k [Hk Hkb]]; [simpl; lia|].
-  unfold inflight. simpl in Hk. lia.
+  destruct e as [i| |k i|k]; simpl; intros H Hb.
+  - injection H as <-. exact Hb.
+  - destruct (N.ltb_spec (N.of_nat (length (p_workers p))) b); [|discriminate].
+    injection H as <-. simpl. rewrite app_length. simpl. lia.
+  - destruct (nth_error (p_workers p) k) as [[j|]|]; try discriminate.
+    destruct (mem_nat i (p_queue p)); [|discriminate]. injection H as <-. simpl. now rewrite length_upd.
+  - destruct (nth_error (p_workers p) k) as [[j|]|]; try discriminate.
+    injection H as <-. simpl. now rewrite length_upd.
 Qed.
 
-Lemma max_inflight_from_le b : forall tr running started,
-  admissible b running started tr = true -> (N.of_nat (length running) <= b)%N ->
-  (N.of_nat (max_inflight_from (length running) tr) <= b)%N.
+Lemma pool_run_threads b tr : forall p p',
+  pool_run b p tr = Some p' -> (N.of_nat (length (p_workers p)) <= b)%N -> (N.of_nat (length (p_workers p')) <= b)%N.
 Proof.
-  induction tr as [|e tr IH]; intros running started H Hb; simpl in *; auto.
-  destruct e as [i|i].
-  - apply andb_true_iff in H. destruct H as [H H3]. apply andb_true_iff in H. destruct H as [H1 H2].
-    apply N.ltb_lt in H1.
-    specialize (IH (i :: running) (i :: started) H3). simpl in IH.
-    assert (Hk : (N.of_nat (S (length running)) <= b)%N) by lia.
-    specialize (IH Hk). lia.
-  - apply andb_true_iff in H. destruct H as [H1 H2].
-    pose proof (length_remove_nat i running H1) as Hl.
-    specialize (IH (remove_nat i running) started H2).
-    assert (Hp : pred (length running) = length (remove_nat i running)) by lia.
-    rewrite Hp. assert (Hk : (N.of_nat (length (remove_nat i running)) <= b)%N) by lia.
-    specialize (IH Hk). lia.
+  induction tr as [|e r IH]; intros p p' H Hb; simpl in H.
+  - injection H as <-. exact Hb.
+  - destruct (pool_step b p e) as [q|] eqn:E; [|discriminate].
+    eapply IH; eauto. eapply pool_step_threads; eauto.
 Qed.
 
-Lemma max_inflight_le b tr : admissible b [] [] tr = true -> (N.of_nat (max_inflight tr) <= b)%N.
-Proof. intros H. apply (max_inflight_from_le b tr [] [] H). simpl. lia. Qed.
+Lemma pool_run_app b pre : forall post p p'',
+  pool_run b p (pre ++ post) = Some p'' -> exists p', pool_run b p pre = Some p' /\ pool_run b p' post = Some p''.
+Proof.
+  induction pre as [|e pre IH]; intros post p p'' H; simpl in *.
+  - eauto.
+  - destruct (pool_step b p e) as [q|]; [|discriminate]. now apply IH.
+Qed.
+
+(** files in flight never exceed the bound, after any prefix of any execution of the pool *)
+Lemma pool_inflight_le b pre post p'' :
+  pool_run b pool_init (pre ++ post) = Some p'' ->
+  exists p', pool_run b pool_init pre = Some p' /\ (N.of_nat (busy p') <= b)%N.
+Proof.
+  intros H. destruct (pool_run_app b pre post pool_init p'' H) as [p' [Hpre _]].
+  exists p'. split; auto.
+  assert (Ht : (N.of_nat (length (p_workers p')) <= b)%N) by (eapply pool_run_threads; eauto; simpl; lia).
+  pose proof (busy_le_len (p_workers p')). unfold busy. lia.
+Qed.
+
+(** the counter read off the events is the number of busy workers, hence bounded too *)
+Lemma peak_from_le b tr : forall p p',
+  pool_run b p tr = Some p' -> (N.of_nat (length (p_workers p)) <= b)%N ->
+  (N.of_nat (peak_from (busy p) tr) <= b)%N.
+Proof.
+  induction tr as [|e r IH]; intros p p' H Hb; simpl in *.
+  - pose proof (busy_le_len (p_workers p)). unfold busy. lia.
+  - destruct (pool_step b p e) as [q|] eqn:E; [|discriminate].
+    pose proof (pool_step_threads b p e q E Hb) as Hq.
+    specialize (IH q p' H Hq).
+    pose proof (busy_le_len (p_workers p)) as Hbl.
+    destruct e as [i| |k i|k]; simpl in E.
+    + injection E as <-. exact IH.
+    + destruct (N.ltb_spec (N.of_nat (length (p_workers p))) b); [|discriminate].
+      injection E as <-. unfold busy in *. simpl in *.
+      assert (Hb' : busy_of (p_workers p ++ [None]) = busy_of (p_workers p)).
+      { clear. induction (p_workers p) as [|[j|] r IHr]; simpl; auto. }
+      rewrite Hb' in IH. exact IH.
+    + destruct (nth_error (p_workers p) k) as [[j|]|] eqn:En; try discriminate.
+      destruct (mem_nat i (p_queue p)); [|discriminate]. injection E as <-.
+      unfold busy in *. simpl in *. rewrite (busy_upd_take _ _ _ En) in IH. lia.
+    + destruct (nth_error (p_workers p) k) as [[j|]|] eqn:En; try discriminate.
+      injection E as <-. unfold busy in *. simpl in *.
+      pose proof (busy_upd_done _ _ _ En) as Hd.
+      assert (Hp : pred (busy_of (p_workers p)) = busy_of (upd (p_workers p) k None)) by lia.
+      rewrite Hp. lia.
+Qed.
+
+Lemma peak_le b tr p' : pool_run b pool_init tr = Some p' -> (N.of_nat (peak tr) <= b)%N.
+Proof. intros H. apply (peak_from_le b tr pool_init p' H). simpl. lia. Qed.
+
+(* ------------------------------------------------------------------------------------------------ *)
+(** * Hash containers: what depends on the hash and what does not *)
+Section Hashed.
+  Context {A : Type} (eqb : A -> A -> bool) (h : A -> N).
+  (** __hash__ is consistent with __eq__ *)
+  Hypothesis h_eq : forall a b, eqb a b = true -> h a = h b.
+
+  Lemma mem_hashed_plain k l : mem_hashed eqb h k l = existsb (fun e => eqb e k) l.
+  Proof.
+    unfold mem_hashed. induction l as [|e l IH]; simpl; [reflexivity|]. rewrite IH. f_equal.
+    destruct (eqb e k) eqn:E; [|now rewrite andb_false_r].
+    rewrite (h_eq e k E), N.eqb_refl. reflexivity.
+  Qed.
+
+  (** dict.fromkeys does not depend on the hash *)
+  Lemma fromkeys_from_plain seq : forall acc, fromkeys_from eqb h acc seq = dedup_from eqb acc seq.
+  Proof. induction seq as [|k r IH]; intros acc; simpl; [reflexivity|]. rewrite mem_hashed_plain. destruct (existsb _ acc); apply IH. Qed.
+  Lemma dict_fromkeys_plain seq : dict_fromkeys eqb h seq = dedup_from eqb [] seq.
+  Proof. apply fromkeys_from_plain. Qed.
+End Hashed.
+
+Lemma NoDup_slots m : List.NoDup (slots m).
+Proof.
+  unfold slots. apply FinFun.Injective_map_NoDup; [|apply seq_NoDup].
+  intros a b H. now apply Nat2N.inj.
+Qed.
+
+Lemma In_slots m i : (i < m)%N -> In i (slots m).
+Proof.
+  intros H. unfold slots. apply in_map_iff. exists (N.to_nat i). split; [apply N2Nat.id|].
+  apply in_seq. lia.
+Qed.
+
+Lemma flat_map_app_perm {A B} (f g : A -> list B) l :
+  Permutation (flat_map (fun i => g i ++ f i) l) (flat_map g l ++ flat_map f l).
+Proof.
+  induction l as [|x l IH]; simpl; [constructor|].
+  rewrite <- !app_assoc. apply Permutation_app_head.
+  eapply perm_trans; [apply Permutation_app_head; exact IH|].
+  rewrite !app_assoc. apply Permutation_app_tail. apply Permutation_app_comm.
+Qed.
+
+Lemma flat_map_single {B} (x : B) s l :
+  List.NoDup l -> In s l -> flat_map (fun i => if N.eqb i s then [x] else []) l = [x].
+Proof.
+  induction 1 as [|y l Hy Hnd IH]; intros Hin; simpl; [destruct Hin|].
+  destruct (N.eqb_spec y s) as [->|Hne].
+  - simpl. f_equal.
+    assert (Hz : forall l', ~ In s l' -> flat_map (fun i => if N.eqb i s then [x] else []) l' = []).
+    { induction l' as [|z l' IHl]; simpl; auto. intros Hn. destruct (N.eqb_spec z s) as [->|]; [exfalso; apply Hn; now left|].
+      apply IHl. intros H'. apply Hn. now right. }
+    now apply Hz.
+  - destruct Hin as [->|Hin]; [congruence|]. simpl. now apply IH.
+Qed.
+
+(** iteration over a set yields every element exactly once, whatever the hash and the table size *)
+Lemma slot_iter_perm {A} (h : A -> N) (m : N) (l : list A) : (0 < m)%N -> Permutation (slot_iter h m l) l.
+Proof.
+  intros Hm. unfold slot_iter. induction l as [|x l IH]; simpl.
+  - assert (E : forall L : list N, flat_map (fun _ : N => @nil A) L = []) by (induction L; simpl; auto). rewrite E. constructor.
+  - eapply perm_trans.
+    + apply Permutation_refl' . apply flat_map_ext. intros i.
+      instantiate (1 := fun i => (if N.eqb i (h x mod m) then [x] else []) ++ List.filter (fun e => N.eqb (h e mod m) i) l).
+      simpl. rewrite (N.eqb_sym (h x mod m) i). destruct (N.eqb i (h x mod m)); reflexivity.
+    + eapply perm_trans; [apply flat_map_app_perm|].
+      rewrite (flat_map_single x (h x mod m) (slots m) (NoDup_slots m)); [|apply In_slots; apply N.mod_lt; lia].
+      simpl. now apply perm_skip.
+Qed.
+
+Lemma ep_hash_eq h a b : ep_eqb a b = true -> ep_hash h a = ep_hash h b.
+Proof. unfold ep_eqb, ep_hash. intros H. apply N.eqb_eq in H. now rewrite H. Qed.
+
+Lemma iter_order_deterministic h m eps : iter_order Deterministic h m eps = dedup_eps eps.
+Proof. unfold iter_order, dedup_eps. apply dict_fromkeys_plain. apply ep_hash_eq. Qed.
+
+Lemma iter_order_overset_perm h m eps : (0 < m)%N -> Permutation (iter_order OverSet h m eps) (dedup_eps eps).
+Proof.
+  intros Hm. unfold iter_order, set_iter. rewrite (dict_fromkeys_plain ep_eqb (ep_hash h) (ep_hash_eq h)).
+  now apply slot_iter_perm.
+Qed.
 
 (* ------------------------------------------------------------------------------------------------ *)
 (** * Order of the matched paths *)
@@ -405,4 +515,13 @@ Proof.
   intros HP. apply sorted_perm_eq; try apply sort_paths_sorted.
   eapply perm_trans; [apply Permutation_sym, sort_paths_perm|].
   eapply perm_trans; [exact HP|apply sort_paths_perm].
+Qed.
+
+Lemma match_order_sorted_free (h h' : str -> N) (m m' : N) l l' :
+  (0 < m)%N -> (0 < m')%N -> Permutation l l' ->
+  match_order SortedPaths h m l = match_order SortedPaths h' m' l'.
+Proof.
+  intros Hm Hm' HP. simpl. apply sort_paths_perm_eq.
+  eapply perm_trans; [apply slot_iter_perm; exact Hm|].
+  eapply perm_trans; [exact HP|]. apply Permutation_sym. now apply slot_iter_perm.
 Qed.
